@@ -686,3 +686,127 @@ func (t Table) ApplyUpdate2(old Row, diff Row) (Row, error) {
 	}
 	return out, nil
 }
+
+// DeepCopy copies a model (pointer to a run-time struct) by reflection, preserving
+// slice order, nil-ness of slices, maps and pointers.
+func DeepCopy(m interface{}) interface{} {
+	return deepCopyValue(reflect.ValueOf(m)).Interface()
+}
+
+func deepCopyValue(v reflect.Value) reflect.Value {
+	switch v.Kind() {
+	case reflect.Ptr:
+		if v.IsNil() {
+			return reflect.Zero(v.Type())
+		}
+		n := reflect.New(v.Type().Elem())
+		n.Elem().Set(deepCopyValue(v.Elem()))
+		return n
+	case reflect.Struct:
+		n := reflect.New(v.Type()).Elem()
+		for i := 0; i < v.NumField(); i++ {
+			if n.Field(i).CanSet() {
+				n.Field(i).Set(deepCopyValue(v.Field(i)))
+			}
+		}
+		return n
+	case reflect.Slice:
+		if v.IsNil() {
+			return reflect.Zero(v.Type())
+		}
+		n := reflect.MakeSlice(v.Type(), v.Len(), v.Len())
+		for i := 0; i < v.Len(); i++ {
+			n.Index(i).Set(deepCopyValue(v.Index(i)))
+		}
+		return n
+	case reflect.Map:
+		if v.IsNil() {
+			return reflect.Zero(v.Type())
+		}
+		n := reflect.MakeMapWithSize(v.Type(), v.Len())
+		it := v.MapRange()
+		for it.Next() {
+			n.SetMapIndex(it.Key(), deepCopyValue(it.Value()))
+		}
+		return n
+	default:
+		return v
+	}
+}
+
+// SetSliceOrder rewrites the slice field of column i with the given atoms in exactly that order.
+func (w *World) SetSliceOrder(table string, m interface{}, colIndex int, atoms []Atom) {
+	c := w.S.Table(table).Cols[colIndex]
+	f := reflect.ValueOf(m).Elem().FieldByName(FieldName(colIndex))
+	s := reflect.MakeSlice(c.GoType(), 0, len(atoms))
+	for _, a := range atoms {
+		s = reflect.Append(s, atomToGo(a))
+	}
+	f.Set(s)
+}
+
+// Update2Diff computes the update2 "modify" difference between two rows by the rules of
+// ovsdb-server(7) (harness' own implementation): only changed columns; columns with
+// max = 1 carry the new value, sets the symmetric difference, maps the pairs added or
+// changed (new value) and the pairs removed (old value).
+func (t Table) Update2Diff(old, new Row) Row {
+	out := Row{}
+	for _, c := range t.Cols {
+		o, n := old[c.Name], new[c.Name]
+		if EqVal(o, n) {
+			continue
+		}
+		switch {
+		case c.Shape() == ShMap:
+			d := EmptyMap()
+			for i, k := range n.K {
+				if v, ok := o.Get(k); !ok || !EqAtom(v, n.V[i]) {
+					d = d.WithPair(k, n.V[i])
+				}
+			}
+			for i, k := range o.K {
+				if !n.Has(k) {
+					d = d.WithPair(k, o.V[i])
+				}
+			}
+			out[c.Name] = d
+		case c.Max == 1:
+			out[c.Name] = n.Clone()
+		default:
+			d := EmptySet()
+			for _, a := range n.K {
+				if !o.Has(a) {
+					d = d.With(a)
+				}
+			}
+			for _, a := range o.K {
+				if !n.Has(a) {
+					d = d.With(a)
+				}
+			}
+			out[c.Name] = d
+		}
+	}
+	return out
+}
+
+// OvsRow renders a canonical row as a decoded ovsdb.Row by way of its JSON text, exactly
+// as a row arriving in a notification.
+func (t Table) OvsRow(r Row, skipDefaults bool) (ovsdb.Row, error) {
+	m := map[string]interface{}{}
+	for name, v := range r {
+		c := t.ColOf(name)
+		if c == nil {
+			return nil, fmt.Errorf("unknown column %s", name)
+		}
+		if skipDefaults && c.IsDefault(v) {
+			continue
+		}
+		m[name] = ValWire(v, c.Shape() == ShScalar, WireOpts{SingleAsAtom: len(v.K) == 1 && !v.M})
+	}
+	var out ovsdb.Row
+	if err := json.Unmarshal(MustJSON(m), &out); err != nil {
+		return nil, err
+	}
+	return out, nil
+}
